@@ -46,9 +46,10 @@ func nameConforms(c *Ctx, pa *provAnalysis, format string, v ssa.Value) (bool, s
 }
 
 func checkC04(c *Ctx, r *Report) {
-	r.Rules = []string{"O3 member order and names (deb ar, ipk, apk segments and cut/full kinds, archlinux)", "D4 deb compression name -> constructor -> member suffix", "F10 every tar member name is relative by construction", "O4 nested archives are completed before they are read (shared with C06-E2/E2m)", "uniqueness / parents-before-children inherited from the plan (shared with C05)", "F10-size header-only members carry size zero", "O3-align apk segments end on a 512-byte boundary without a whole zero block", "mtree-F8 .PKGINFO first in .MTREE (imported from C03)", "apk-F12-apk segment order by buffer identity (imported from C10)", "fresh-G4 archives start in fresh buffers (imported from C11)"}
+	r.Rules = []string{"O3 member order and names (deb ar, ipk, apk segments and cut/full kinds, archlinux)", "D4 deb compression name -> constructor -> member suffix", "F10 every tar member name is relative by construction", "O4 nested archives are completed before they are read (shared with C06-E2/E2m)", "uniqueness / parents-before-children inherited from the plan (shared with C05)", "F10-size header-only members carry size zero", "O3-align apk segments end on a 512-byte boundary without a whole zero block", "mtree-F8 .PKGINFO first in .MTREE (imported from C03)", "apk-F12-apk segment order by buffer identity (imported from C10)", "fresh-G4 archives start in fresh buffers (imported from C11)", "O3-all every return that can report success follows all mandatory members (deb, ipk)", "F10-rpm names handed to rpmpack are normalised at their last definition"}
 	r.Explanation = "Structural necessary conditions of well-formedness decided from source. (O3) deb: the ar global header is written before any member and the members are debian-binary (constant body \"2.0\\n\"), control.tar.gz, the data member, then the optional signature, in that order on every path; ipk: ./debian-binary, ./control.tar.gz, ./data.tar.gz in that order through the './'-prefixing helper; apk: the data segment is written as a complete tar (the kind constant for which the writer flushes after closing the tar), control and signature as cut tars, the buffered writer is large enough to hold back the end-of-archive marker (>= 1024), Flush precedes the tar Close, and .PKGINFO is the first entry of the control segment; archlinux: .INSTALL is written only when at least one script is configured. (D4) the deb compression setting is evaluated for every accepted name and for an unknown one: exactly one compressor constructor is live and the member name carries the matching suffix; an unknown name is an error. (F10) for every tar header created on a packaging path, every definition of Name that can reach the point where the header is written (flow-sensitive reaching stores) is a relative constant, is built from constants, or passes the format's relative-name helper; a header made by tar.FileInfoHeader keeps its source-path name unless overwritten on every path. (O4) every tar/compressor layered over a buffer is closed before the buffer is read. Uniqueness of names and parents-before-children follow from the plan rules of C05, which are re-evaluated here. Acceptance by dpkg/rpm/apk/pacman and rpm's internal layout are not decided."
 	r.Explanation += " (F10-size) per header, over the combinations of Typeflag and Size definitions that can hold together at a use, a header-only class never meets a size other than the constant zero. (O3-align) the hand-written padding of apk segments, evaluated in an affine domain for every residue of the byte counter modulo 512, satisfies 0 <= pad < 512 and (counter+pad) mod 512 = 0. Imported: .PKGINFO first in .MTREE (C03 F8), apk segment order by buffer identity (C10 F12-apk), fresh output buffers (C11 G4), and the planner's path discipline (C05 G-*, O5-parents-clean)."
+	r.Explanation += " (O3-all) in deb's Package and ipk's outer writer every return whose error is not provably non-nil is dominated by the writes of all mandatory members. (F10-rpm) every definition of a file record's Name that reaches rpmpack's AddFile is the result of files.ToNixPath (or a clean absolute constant), and one such definition dominates the call."
 	r.Assumptions = []string{
 		"archive/tar, blakesmith/ar, pgzip, zstd, xz and rpmpack produce well-formed containers for well-formed input",
 		"files.AsRelativePath / AsExplicitRelativePath return clean relative paths (their string semantics are not analysed)",
@@ -88,6 +89,32 @@ func checkC04(c *Ctx, r *Report) {
 			}
 		}
 		r.Check(ordered && strings.Join(names, ",") == "debian-binary,control.tar.gz,<data member>,_gpg*", "O3", "deb: ar member order", c.pos(pk.Package.Pos()), "members written: "+strings.Join(names, ", ")+" (each dominated by the previous one)")
+		// every return that can report success comes after the three
+		// mandatory members
+		for _, b := range pk.Package.Blocks {
+			ret, isRet := b.Instrs[len(b.Instrs)-1].(*ssa.Return)
+			if !isRet || errorIsNonNilAt(ret) {
+				continue
+			}
+			missing := ""
+			for i, m := range members {
+				if names[i] == "_gpg*" {
+					continue
+				}
+				okM := false
+				switch {
+				case m.site == nil && m.done != nil:
+					okM = m.done == b || m.done.Dominates(b)
+				default:
+					okM = m.at().Block() == b || m.at().Block().Dominates(b)
+				}
+				if !okM {
+					missing = names[i]
+				}
+			}
+			r.Check(missing == "", "O3-all", "deb: a return that can report success follows every mandatory member", c.instrPos(ret),
+				"the write of "+missing+" does not dominate this return: a package without that member would be reported as built")
+		}
 		// debian-binary body
 		for _, m := range members {
 			if constOrEmpty(m.name) == "debian-binary" {
@@ -110,6 +137,7 @@ func checkC04(c *Ctx, r *Report) {
 				name string
 				body ssa.Value
 				row  int
+				done *ssa.BasicBlock
 			}
 			var seq []outer
 			var names []string
@@ -125,7 +153,7 @@ func checkC04(c *Ctx, r *Report) {
 					}
 					switch constOrEmpty(a) {
 					case "debian-binary", "control.tar.gz", "data.tar.gz":
-						seq = append(seq, outer{call, constOrEmpty(a), body, 0})
+						seq = append(seq, outer{call, constOrEmpty(a), body, 0, nil})
 						names = append(names, constOrEmpty(a))
 						continue
 					}
@@ -135,7 +163,7 @@ func checkC04(c *Ctx, r *Report) {
 					if !isElem || a.Type().String() != "string" {
 						continue
 					}
-					arr, _ := fullRangeOver(ia, call)
+					arr, done := fullRangeOver(ia, call)
 					if arr == nil {
 						continue
 					}
@@ -149,7 +177,7 @@ func checkC04(c *Ctx, r *Report) {
 					for k, row := range rows {
 						switch n := constOrEmpty(row[nfield]); n {
 						case "debian-binary", "control.tar.gz", "data.tar.gz":
-							seq = append(seq, outer{call, n, row[bfield], k})
+							seq = append(seq, outer{call, n, row[bfield], k, done})
 							names = append(names, n)
 						}
 					}
@@ -170,6 +198,26 @@ func checkC04(c *Ctx, r *Report) {
 				}
 			}
 			r.Check(ordered && strings.Join(names, ",") == "debian-binary,control.tar.gz,data.tar.gz", "O3", "ipk: outer member order", c.pos(fn.Pos()), "members written: "+strings.Join(names, ", "))
+			for _, b := range fn.Blocks {
+				ret, isRet := b.Instrs[len(b.Instrs)-1].(*ssa.Return)
+				if !isRet || errorIsNonNilAt(ret) {
+					continue
+				}
+				missing := ""
+				for _, m := range seq {
+					okM := false
+					if m.done != nil {
+						okM = m.done == b || m.done.Dominates(b)
+					} else {
+						okM = m.call.Block() == b || m.call.Block().Dominates(b)
+					}
+					if !okM {
+						missing = m.name
+					}
+				}
+				r.Check(missing == "", "O3-all", "ipk: a return that can report success follows every outer member", c.instrPos(ret),
+					"the write of "+missing+" does not dominate this return: an ipk without that member would be reported as built")
+			}
 			for _, s := range seq {
 				if s.name == "debian-binary" && s.body != nil {
 					body := s.body
@@ -186,6 +234,7 @@ func checkC04(c *Ctx, r *Report) {
 	}
 
 	checkAPKStructure(c, r)
+	checkRPMNames(c, r)
 
 	// ---- O3 archlinux: .INSTALL only with scripts ----
 	if pk := c.PackagerByFormat("archlinux"); pk != nil {
@@ -762,4 +811,91 @@ func checkZstdWindow(c *Ctx, r *Report) {
 	if ctors < 1 {
 		r.Fail("instance-floor", "O3-zstd-window", "-", "no zstd encoder found")
 	}
+}
+
+// checkRPMNames (F10-rpm): every file record handed to rpmpack carries a name
+// that went through the repository's path normaliser (files.ToNixPath) at its
+// last definition: rpmpack stores the name as given - dirname and basename are
+// split from it - so a name left unclean ("" for the root, a trailing slash, a
+// doubled separator) ends up in the header's file list as such.
+func checkRPMNames(c *Ctx, r *Report) {
+	pk := c.PackagerByFormat("rpm")
+	if pk == nil {
+		return
+	}
+	var fns []*ssa.Function
+	for _, fn := range sortedFuncs(c, c.Reach(pk.Package)) {
+		if c.funcPkgPath(fn) == pk.PkgPath {
+			fns = append(fns, fn)
+		}
+	}
+	pa := newProv(c)
+	n := 0
+	isNorm := func(v ssa.Value) bool {
+		if k, isK := v.(*ssa.Const); isK && isConstString(k) {
+			t := constString(k)
+			return strings.HasPrefix(t, "/") && (t == "/" || t == strings.TrimRight(t, "/"))
+		}
+		cl, isCl := v.(*ssa.Call)
+		return isCl && (calleeIs(cl, filesPath, "", "ToNixPath") || calleeIs(cl, filesPath, "", "NormalizeAbsoluteFilePath") || calleeIs(cl, filesPath, "", "NormalizeAbsoluteDirPath"))
+	}
+	for _, fn := range fns {
+		forEachInstr(fn, func(in ssa.Instruction) {
+			call, isCall := in.(*ssa.Call)
+			if !isCall || !calleeIs(call, rpmpackPath, "RPM", "AddFile") {
+				return
+			}
+			n++
+			construct := fmt.Sprintf("rpm: file record#%d added in %s has a normalised name", n, c.funcKey(fn))
+			ld, isLd := call.Call.Args[len(call.Call.Args)-1].(*ssa.UnOp)
+			if !isLd || ld.Op != token.MUL {
+				r.Check(false, "F10-rpm", construct, c.instrPos(call), "the record added is not read through a pointer whose Name definitions can be enumerated")
+				return
+			}
+			ptr := ld.X
+			var stores []*ssa.Store
+			forEachInstr(fn, func(i2 ssa.Instruction) {
+				st, isSt := i2.(*ssa.Store)
+				if !isSt {
+					return
+				}
+				if fa, isFA := st.Addr.(*ssa.FieldAddr); isFA && fa.X == ptr && fieldName(fa.X.Type(), fa.Field) == "Name" {
+					stores = append(stores, st)
+				}
+			})
+			dominating := false
+			bad := ""
+			for _, st := range stores {
+				if instrDominates(st, call) {
+					dominating = true
+				}
+				if !isNorm(st.Val) {
+					bad = fmt.Sprintf("the definition at %s is %s (derives from {%s})", c.instrPos(st), shorten(valueExpr(c, st.Val, 0), 80), strings.Join(pa.Of(st.Val).fields(), ","))
+				}
+			}
+			if !dominating && bad == "" {
+				bad = "no definition of Name in this function dominates the call; the records come from their builders as they are"
+				// every builder normalises the name itself?
+				allNorm := true
+				nb := 0
+				for _, h := range headerObjects(c, fns) {
+					if h.Kind != "rpm" {
+						continue
+					}
+					for _, st := range h.fieldStores("Name") {
+						nb++
+						if !isNorm(h.valueOf(st)) {
+							allNorm = false
+						}
+					}
+				}
+				if allNorm && nb > 0 {
+					bad = ""
+				}
+			}
+			r.Check(bad == "", "F10-rpm", construct, c.instrPos(call),
+				"expected every definition of Name that can reach AddFile to be files.ToNixPath(...), and one of them on every path: "+bad)
+		})
+	}
+	r.Floor("F10-rpm", n, 1)
 }
